@@ -36,7 +36,7 @@ def _symex_job(args):
     from .core import EngineError, has_user_quantifier, term_size
     import z3
     t0 = time.time()
-    out = {'unit': unit_name, 'obligations': [], 'error': None}
+    out = {'unit': unit_name, 'obligations': [], 'error': None, 'bounded': None}
     try:
         if 'loaded' not in _G:
             _G['loaded'] = load_all()
@@ -84,7 +84,8 @@ def _symex_job(args):
                     'inlined': sorted(res.inlined), 'by_contract': sorted(res.by_contract), 'opaque': sorted(res.opaque),
                     'assumptions': sorted(res.assumptions), 'dropped': res.dropped, 'symex_s': round(res.symex_s, 3),
                     'prune_checks': res.solver_checks, 'outcomes': res.outcomes,
-                    'arith': unit.arith, 'props': unit.props, 'contract_file': os.path.relpath(unit.path, VERIF)})
+                    'arith': unit.arith, 'props': unit.props, 'contract_file': os.path.relpath(unit.path, VERIF),
+                    'bounded': unit.opts.get('bounded')})
     except EngineError as e:
         out['error'] = 'EngineError: %s' % e
         out['trace'] = traceback.format_exc()
